@@ -919,7 +919,7 @@ def prove(pc, hyps, goal, timeout_s=60, max_cases=4000):
     s.set("timeout", 5000)
     s.set("rlimit", 3000000)      # nonlinear queries with uninterpreted functions: bounded effort
     si = z3.Solver()
-    si.set("timeout", 10000)
+    si.set("timeout", 3000)
     for c in list(pc) + list(hyps):
         s.add(c)
         if pure_int(c):
